@@ -56,12 +56,15 @@ theorem C09_gen_shape :
 
 /-- **C09_gen_lock.**  The only functions that touch `_pyroInstances` are `Daemon.__init__` (where the daemon is
     not shared yet) and `_getInstance`, whose accesses are all lexically inside `with <the single-instance lock>:`;
-    the lock is a real `threading` lock; no other function of the package mentions either table; `_getInstance`
+    the lock is a real `threading` lock, and the lock attribute and the table attribute are bound once, in `__init__`
+    (one lock object and one table for the daemon's whole lifetime: closing the daemon or re-entering its request
+    loop does not replace them); no other function of the package mentions either table; `_getInstance`
     has its one call site in `handleRequest`. -/
 theorem C09_gen_lock :
     Pyro.Gen.C09.instShape.map (·.1) = ["Daemon.__init__", "Daemon._getInstance"] ∧
     (∀ m ∈ Pyro.Gen.C09.instShape, m.1 = "Daemon.__init__" ∨ (m.2.2 = 0 ∧ 0 < m.2.1)) ∧
     Pyro.Gen.C09.lockKind ∈ ["Lock", "RLock"] ∧
+    Pyro.Gen.C09.lockWriters = ["Daemon.__init__"] ∧ Pyro.Gen.C09.tableWriters = ["Daemon.__init__"] ∧
     Pyro.Gen.C09.tableUsers = ["server.py:Daemon.__init__", "server.py:Daemon._getInstance",
       "socketutil.py:SocketConnection.__init__", "socketutil.py:SocketConnection.close"] ∧
     Pyro.Gen.C09.getInstanceCallers = ["Daemon.handleRequest:1"] := by decide
@@ -304,6 +307,15 @@ theorem C09_session_dropped (ts : Tests) (spec : Nat → ClassSpec) :
           simpa using this
         · intro m c' k' o' h1 h2 he
           exact hcalls (m + 1) c' k' o' (Nat.succ_lt_succ h1) (Nat.succ_lt_succ h2) (by simpa using he)
+
+/-- **C09_close_empties.**  (Either operator.)  Closing a connection that is not `keep_open` leaves it without any
+    session instance, whatever it held and however it came to be closed (client gone, error, a `BaseException` that
+    ended the server-side job): the oracle clause "a connection that has ended holds no session instance". -/
+theorem C09_close_empties (ts : Tests) (spec : Nat → ClassSpec) (s : State) (c k : Nat) (hk : s.keep c = false) :
+    (stepEv ts spec s (.close c)).1.tab (.sess c k) = none ∧
+    ∀ k', (stepEv ts spec s (.close c)).1.tab (.single k') = s.tab (.single k') := by
+  simp only [stepEv, hk, Bool.false_eq_true, if_false]
+  exact ⟨clearConn_own _ _ _, fun k' => rfl⟩
 
 /-! ### percall, freshness, creator -/
 
